@@ -22,6 +22,8 @@ def drv_cfg(c, tick_ns=1000, backend="epoll", **kw):
 def generate(chk, name, c, *, simulate=None, depth=None, seed=None, invariants=("Inv", "Emit"),
              properties=(), timeout=1200, max_hist=None, constraint="GenConstraint"):
     """Run TLC on EventCore with constants c; returns list of histories."""
+    emit = {"GenConstraint": "Emit", "GenConstraintNT": "EmitNT", "GenConstraintHeap": "EmitHeap"}[constraint]
+    invariants = [emit if i == "Emit" else i for i in invariants]
     cfg = vkit.write_cfg(name, c, invariants=invariants, properties=properties, constraint=constraint)
     hists = []
     seen = set()
